@@ -253,13 +253,32 @@ func (s *settings) GetBySwampName(swampName name.Name) setting.Setting {
 	s.mu.RLock()
 	defer s.mu.RUnlock()
 
-	if len(s.patterns) > 0 {
-		for _, pi := range s.patterns {
-			// compare if the pattern is math with the swamp name
-			if swampName.ComparePattern(pi.GetPattern()) {
-				return pi
-			}
+	// Several registered patterns can match one swamp (an exact name, a
+	// realm-level wildcard, a sanctuary-level wildcard). The most specific one
+	// has to win, and it has to be the same one every time: returning the first
+	// match of a map iteration made the effective settings (in-memory or
+	// persistent, idle timeout, write interval) change from lookup to lookup.
+	var best setting.Setting
+	bestScore := -1
+	for _, pi := range s.patterns {
+		// compare if the pattern is math with the swamp name
+		pattern := pi.GetPattern()
+		if !swampName.ComparePattern(pattern) {
+			continue
 		}
+		score := 0
+		if pattern.GetRealmName() != "*" {
+			score += 2
+		}
+		if pattern.GetSwampName() != "*" {
+			score++
+		}
+		if score > bestScore || (score == bestScore && pattern.Get() < best.GetPattern().Get()) {
+			best, bestScore = pi, score
+		}
+	}
+	if best != nil {
+		return best
 	}
 
 	// ha nem találunk olyan beállítást, ami a megadott mintához tartozik, akkor visszaadjuk az alapértelmezett beállítást
